@@ -123,6 +123,11 @@ CHECKS["C12"] = _e("model_checking",
     "DESIGN.md 6/C12; notes/C12.md",
     "Trusted: TLC, pyarrow's compute kernels as execution platform (mirrored in the spec, re-checked by the binding). For NaN rows IEEE semantics are the reference. pandas APIs not exercised.",
     "TLA+ filter semantics + API read programs model-checked by TLC; TLC-exported cases replayed through every scan API and option")
+CHECKS["C18"] = _e("model_checking",
+    "DataShard.tla operation 'create' (Table.__init__ + initialize_table at storage-operation granularity: open refresh, thread lock, distributed lock, resolve under the lock, stamp, write v0, pointer write - create-if-absent on CAS backends -, unlocks) over the initial states absent / healthy / pointer lost / pointer garbage, local and CAS backends, exclusive and grant-all locks. TLC explores all interleavings of 2-3 creators each followed by a first append, checking SingleInit, NeverReinitialised, Serializable (all first appends reflected), AckedOnce, ResolveLatestCommitted; a grant-all lock without CAS must violate SingleInit. Binding: create_table() calls incl. handle construction as actors on the real library, every single-pause schedule plus seeded double-pause/random ones, each trace validated by TLC (uuid written, pointer-write precondition and outcome, identity each caller ends up on); the schema clauses are replayed directly.",
+    "DESIGN.md 6/C18",
+    "Trusted: as C01/C08. 'Creation interrupted' initial states = metadata written but pointer missing (plus C03's crash enumeration of create). With a lock that grants everyone a caller may transiently resolve an unpublished v0 by scanning; convergence on one table is what is required there (documented in the spec).",
+    "TLA+ protocol spec with creation model-checked by TLC; trace validation of real scheduled create_table races (local + in-memory S3)")
 
 NOT_YET: dict = {}
 
